@@ -629,7 +629,7 @@ func (c *Cluster) apiFuzzer(n *Node, untilNs int64) {
 		other := c.Nodes[rng.Intn(len(c.Nodes))]
 		var cur *ApiCall
 		choice := rng.Intn(16)
-		if choice >= 9 && choice <= 13 && n.lifecycle != nil && !n.lifecycle.Returned && n.lifecycle.Inc == inc {
+		if choice >= 9 && choice <= 13 && (!inc.booted || (n.lifecycle != nil && !n.lifecycle.Returned && n.lifecycle.Inc == inc)) {
 			// One lifecycle call at a time per node (they are made by one administrator);
 			// everything else keeps overlapping with it.
 			choice = 14
@@ -716,7 +716,7 @@ func (c *Cluster) apiFuzzer(n *Node, untilNs int64) {
 				name = "Stop+Start"
 			}
 			c.Stats.StopStarts++
-			n.lifecycle = c.apiCall(inc, name, -1, func() {
+			n.lifecycle = c.apiCall(inc, name, pause, func() { // (the pause is part of the call: it counts for the hang limit)
 				r.Stop()
 				if simrt.Dead() {
 					return
